@@ -678,6 +678,24 @@ func effCorners() [][]eMethod {
 			}
 		}
 	}
+	// two callees: m0 impure (it writes), m1 pure; the caller m2 hides a call of
+	// m0 inside an ARGUMENT of a well-marked call of m1 (parseArgNode's rule;
+	// ast.NewArg copies no flags, so nothing else would notice)
+	for _, eff := range []string{"pure", "impure"} {
+		w := eMethod{"impure", &eStmt{k: "setfld", n: 0, e: lit(9)}, lit(1)}
+		p := eMethod{"pure", skip, lit(1)}
+		inner := func() *eExpr { return &eExpr{k: "call", mark: "impure", m: 0, l: lit(2)} }
+		nest := func() *eExpr { return &eExpr{k: "call", mark: "pure", m: 1, l: inner()} }
+		out = append(out,
+			[]eMethod{w, p, {eff, &eStmt{k: "setloc", n: 0, e: nest()}, lit(0)}},
+			[]eMethod{w, p, {eff, &eStmt{k: "calls", mark: "pure", m: 1, e: inner()}, lit(0)}},
+			[]eMethod{w, p, {eff, &eStmt{k: "setloc", n: 0, e: &eExpr{k: "add", l: nest(), r: lit(1)}}, lit(0)}},
+			[]eMethod{w, p, {eff, &eStmt{k: "bind", n: 1, s: eSRef{k: "ss", lo: nest()}}, lit(0)}},
+			[]eMethod{w, p, {eff, &eStmt{k: "ite", e: nest(), a: skip, b: skip}, lit(0)}},
+			[]eMethod{w, p, {eff, &eStmt{k: "loop", e: nest(), a: skip}, lit(0)}},
+			[]eMethod{w, p, {eff, skip, nest()}},
+		)
+	}
 	return out
 }
 
